@@ -34,6 +34,20 @@ import IbicusModel.Props.C04Gen
 #print axioms Props.C04.isimip_winFn_affine
 #print axioms Props.C04.isimip_windowed_affine_RW
 #print axioms Props.C04.isimip_windowed_affine_months
+-- round 4: multiplicative whole-series, histogram ecdf, grids, construction sequences
+#print axioms Props.C04.ls_mult_windowed_scale
+#print axioms Props.C04.dc_mult_windowed_scale
+#print axioms Props.C04.cdft_affine_hist
+#print axioms Props.C04.qdm_abs_affine_hist
+#print axioms Props.C04.rangeBin_affine
+#print axioms Props.C04.apply_grid_affine
+#print axioms Props.C04.locRW_affine
+#print axioms Props.C04.from_variable_state_const
+#print axioms Props.C04.from_variable_history_free
+#print axioms Props.C04.aliasing_counter_model_leaks
+#print axioms Lemmas.C02.ecdfHist1_affine
+#print axioms Lemmas.C04.eqAffineLaws_hist
+#print axioms Props.C05.apply_cellwise
 -- the general affine laws of the numeric toolkit the theorems stand on (Lemmas/StatsAffine.lean)
 #print axioms Lemmas.StatsAffine.sortQ_map_affine
 #print axioms Lemmas.StatsAffine.argsort_map_affine
@@ -60,6 +74,7 @@ import IbicusModel.Props.C04Gen
 -- tier A: regenerated kernels = model
 #print axioms Props.C04.isimip_flags_are_generated
 #print axioms Props.C04.isimip_unbounded_flags_generated
+#print axioms Props.C04.from_variable_builds_fresh_dict
 #print axioms Lemmas.GenDebiasers.ls_apply_on_window
 #print axioms Lemmas.GenDebiasers.dc_apply_on_within_year_window
 #print axioms Lemmas.GenDebiasers.linearScalingS_additive
